@@ -80,6 +80,7 @@ def check(model, rep):
                 'kind and an SI magnitude canonically equal to S op O (unit factors must cancel). Rounding is '
                 'not decided.')
     sx = SX(model)
+    sx.inline_ctor_guards = True      # positive-only kinds: the constructor's sign check is part of the operator's paths
     sxm.POSITIVE_ATOMS.clear()
     ctx = sx.ctx
     kinds = sorted(model.quantity_kinds())
